@@ -153,7 +153,7 @@ static void part_ctor(const std::vector<unsigned>& ns, const std::vector<unsigne
             check_kick(kase, m, in, out, true, n, nb, it, key);
         } else if (kind == 2) {
             std::vector<float> slip = {angle, var == 1 ? 0.3f * angle : 0.f, var == 2 ? -0.2f * angle : 0.f};
-            DriftMap m(in, out, slip, 1.3e9f, itt, false, nullptr);
+            auto mp = with_scratch(slip, [&](const std::vector<float>& sl) { return std::unique_ptr<DriftMap>(new DriftMap(in, out, sl, 1.3e9f, itt, false, nullptr)); }); DriftMap& m = *mp;
             check_kick(kase, m, in, out, false, n, nb, it, key);
         } else if (kind >= 4) {
             // time-dependent RF kick (deterministic phase modulation; noise would add nothing to conservation but randomness to the check): every apply() of the impulse test runs with another queue entry
